@@ -45,3 +45,8 @@ def run(ctx):
     for key, a in audited.items():
         if a.get("property") in ("C08", None) and key.split("/")[0] and key not in eng.used_audits and any(key.startswith(f + "/") for f in eng.reach):
             ctx.record("audited-entry-live", key, True, "audited entry does not match any current site (stale, harmless)", nontrivial=False)
+
+
+def fixture(fctx):
+    import fixture_checks
+    return fixture_checks.nopanic_alive(fctx)
